@@ -107,3 +107,9 @@ reg("C03", level="model_checking", overlay="world",
     budget={"quick": 150, "thorough": 1200}, workers={"quick": 16, "thorough": 16},
     assumptions=["clock readings are strictly increasing (1 ns per reading)", "delays and offsets come from small alphabets; the inequality is scale-free",
                  "hardware timestamping (iface != \"\") is not modelled"])
+
+reg("C05", level="model_checking", overlay="world",
+    technique="exhaustive enumeration of crafted-datagram sequences against the real client over an in-memory network, acceptance-predicate oracle",
+    level_text="Every ordered pair of datagrams from the mutation catalogue is injected for the outstanding basic and interleaved request of the real client; a reported measurement is accepted by the oracle only if the datagram it was computed from satisfies the predicate written from the statement (fault enumeration flavour of model checking: states = distinct (accepted?, consumed) classes).",
+    budget={"quick": 150, "thorough": 1200}, workers={"quick": 16, "thorough": 16},
+    assumptions=["mutations are single-field; arbitrary byte strings are covered by C08's grammars", "NTS and SCION variants are separate scenarios of this check"])
